@@ -101,8 +101,28 @@ def observe(case, second_pass: bool = False):
         return r, None, {"config_error": repr(e)[:300]}
     _critical["n"] = 0
     obs = {}
+    import logging
+
+    class _H(logging.Handler):
+        n = 0
+
+        def emit(self, record):
+            try:
+                if "would result in an unparsable file" in record.getMessage():
+                    _H.n += 1
+            except Exception:
+                pass
+
+    _H.n = 0
+    _h = _H(level=logging.WARNING)
+    _lg = logging.getLogger("sqlfluff.linter")
+    _lg.addHandler(_h)
     try:
-        linted = lnt.lint_string(r["source"], fname="<string>", fix=True)
+        try:
+            linted = lnt.lint_string(r["source"], fname="<string>", fix=True)
+        finally:
+            _lg.removeHandler(_h)
+            obs["validation_rejections"] = _H.n
     except Exception as e:
         obs["raised"] = f"{type(e).__name__}: {str(e)[:300]}"
         return r, lnt, obs
